@@ -100,6 +100,11 @@ func genMutants(outdir string) error {
 					add(x.Pos(), x.End(), text(x.X), "drop-right-operand")
 					add(x.Pos(), x.End(), text(x.Y), "drop-left-operand")
 				}
+				if x.Op == token.LAND {
+					add(x.OpPos, x.OpPos+2, "||", "and-to-or")
+				} else if x.Op == token.LOR {
+					add(x.OpPos, x.OpPos+2, "&&", "or-to-and")
+				}
 			case *ast.Ident:
 				if x.Name == "true" {
 					add(x.Pos(), x.End(), "false", "true-to-false")
@@ -114,7 +119,28 @@ func genMutants(outdir string) error {
 					add(x.Sel.Pos(), x.Sel.End(), "RUnlock", "unlock-to-runlock")
 				}
 			case *ast.AssignStmt:
-				// x++ / x-- are IncDecStmt; assignments `a = b` deletion
+				// plain assignments to fields / elements / dereferences (state updates), not definitions
+				if x.Tok == token.ASSIGN && len(x.Lhs) == 1 {
+					switch x.Lhs[0].(type) {
+					case *ast.SelectorExpr, *ast.IndexExpr, *ast.StarExpr:
+						add(x.Pos(), x.End(), "", "delete-assign")
+					}
+				}
+			case *ast.GoStmt:
+				add(x.Pos(), x.Call.Pos(), "", "remove-go")
+			case *ast.BasicLit:
+				if x.Kind == token.INT {
+					switch x.Value {
+					case "0":
+						add(x.Pos(), x.End(), "1", "int-0-to-1")
+					case "1":
+						add(x.Pos(), x.End(), "0", "int-1-to-0")
+					default:
+						if len(x.Value) <= 3 {
+							add(x.Pos(), x.End(), x.Value+"+1", "int-plus-1")
+						}
+					}
+				}
 			case *ast.IncDecStmt:
 				add(x.Pos(), x.End(), "", "delete-incdec")
 			}
